@@ -645,9 +645,9 @@ def _run_chunk(cmd, reqs, env):
     return results
 
 
-def run_parallel(binname, reqs, rel, workers, chunk, memlimit=True, vlimit_kb=8000000):
+def run_parallel(binname, reqs, rel, workers, chunk, memlimit=True, vlimit_kb=8000000, watchdog_ms=None):
     env = dict(ENV)
-    env["MJVERIF_WATCHDOG_MS"] = str(WATCHDOG_MS)
+    env["MJVERIF_WATCHDOG_MS"] = str(watchdog_ms or WATCHDOG_MS)
     cmd = ["bash", "-c", ("ulimit -v %d; " % vlimit_kb if memlimit else "") + "exec " + bin_path(binname, rel)]
     chunks = [reqs[i:i + chunk] for i in range(0, len(reqs), chunk)]
     with concurrent.futures.ThreadPoolExecutor(max_workers=workers) as ex:
@@ -817,11 +817,12 @@ def main():
                   ("pipelines", pipeline_templates(REPO, chk.rng, 1200000 if chk.thorough else 12000)),
                   ("mutated", mutated_fixtures(REPO, chk.rng, 400000 if chk.thorough else 4000)),
                   ("slices", slice_family(chk.thorough)), ("lexer", lexer_family(chk.thorough)), ("arith", arith_family()), ("oddvalues", odd_values_family(REPO)),
-                  ("multi", multi_template_family()), ("cyclic", cyclic_family(REPO)),
+                  ("multi", multi_template_family()),
                   ("loopcontrols", loop_control_family()), ("escaped", escaped_objects_family())]
-        # nothing legitimate in this family needs gigabytes: a tight address-space limit turns what would be minutes of
-        # filling memory on a tree without the width bounds (14 shards in parallel) into an immediate allocation failure
-        lowmem_groups = [("widths", width_family())]
+        # nothing legitimate in these families needs gigabytes or seconds: a tight address-space limit and a short watchdog turn
+        # what would be minutes of filling memory / pretty-printing an endless value on a tree without the bounds (14 shards
+        # in parallel) into an immediate allocation failure / an early hang verdict
+        lowmem_groups = [("widths", width_family()), ("cyclic", cyclic_family(REPO))]
         line_groups = [("linesyntax", line_syntax_family())]
         labels = {t: l for l, t in nest}
     hist = collections.Counter()
@@ -847,7 +848,7 @@ def main():
         return r
 
     t_run = time.time()
-    for binname, gs, mk, vlimit in (("prog", groups, prog_req, 8000000), ("prog", lowmem_groups, prog_req, 2000000), ("c01", line_groups, c01_req, 8000000)):
+    for binname, gs, mk, vlimit, wd in (("prog", groups, prog_req, 8000000, WATCHDOG_MS), ("prog", lowmem_groups, prog_req, 2000000, 5000), ("c01", line_groups, c01_req, 8000000, WATCHDOG_MS)):
       flat = entries(gs)
       # heavy requests (long templates) first so that the shards finish together
       order = sorted(range(len(flat)), key=lambda i: -(len(flat[i][1]) + sum(len(x) for x in flat[i][2].get("templates", {}).values())))
@@ -855,14 +856,14 @@ def main():
       for rel in (False, True):
         if not reqs:
             continue
-        res = run_parallel(binname, reqs, rel, workers=14, chunk=64, vlimit_kb=vlimit)
+        res = run_parallel(binname, reqs, rel, workers=14, chunk=64, vlimit_kb=vlimit, watchdog_ms=wd)
         total += len(res)
         # a request that did not answer within the watchdog while 14 shards (and whatever else) load the machine
         # gets a second chance alone with a 3 times longer watchdog before it counts as a hang (at most 2 per profile)
         slow = [k for k, r in enumerate(res) if isinstance(r, dict) and r.get("hang")][:2]
         if slow:
             env2 = dict(ENV)
-            env2["MJVERIF_WATCHDOG_MS"] = str(3 * WATCHDOG_MS)
+            env2["MJVERIF_WATCHDOG_MS"] = str(3 * wd)
             cmd2 = ["bash", "-c", "ulimit -v 8000000; exec " + bin_path(binname, rel)]
             for k in slow:
                 r2 = _run_chunk(cmd2, [reqs[k]], env2)
